@@ -4,6 +4,7 @@ package checks
 import (
 	"fmt"
 	"runtime/debug"
+	"strings"
 
 	"github.com/nlnwa/whatwg-url/url"
 
@@ -63,15 +64,37 @@ var Bases = []string{
 // mcfg is the reference model in its default parameterisation with the IDNA delegate.
 func mcfg() *model.Config { return impl.ModelConfig() }
 
-// safely runs f and turns a panic into a description.
+// safely runs f and turns a panic into a deterministic description: the panic value plus the innermost
+// frames inside the library (function and file:line only; no addresses or argument values).
 func safely(f func()) (panicked string) {
 	defer func() {
 		if r := recover(); r != nil {
-			st := debug.Stack()
-			if len(st) > 1500 {
-				st = st[:1500]
+			panicked = fmt.Sprintf("panic: %v", r)
+			if len(panicked) > 300 {
+				panicked = panicked[:300]
 			}
-			panicked = fmt.Sprintf("%v\n%s", r, st)
+			lines := strings.Split(string(debug.Stack()), "\n")
+			n := 0
+			for i := 0; i+1 < len(lines) && n < 4; i++ {
+				l := lines[i]
+				if !strings.HasPrefix(l, "github.com/nlnwa/whatwg-url/") {
+					continue
+				}
+				fn := l
+				if j := strings.LastIndex(fn, "("); j > 0 {
+					fn = fn[:j]
+				}
+				fn = strings.TrimPrefix(fn, "github.com/nlnwa/whatwg-url/")
+				loc := strings.TrimSpace(lines[i+1])
+				if j := strings.Index(loc, " +0x"); j > 0 {
+					loc = loc[:j]
+				}
+				if j := strings.LastIndex(loc, "/"); j >= 0 {
+					loc = loc[j+1:]
+				}
+				panicked += " @ " + fn + " (" + loc + ")"
+				n++
+			}
 		}
 	}()
 	f()
